@@ -254,6 +254,19 @@ let () =
             print_string (if known_C16_null_plain_string d then "\"known\":true," else "\"known\":false,");
             print_string (if known_C16_null_forbidden_field d then "\"known2\":true}" else "\"known2\":false}");
             print_char '\n'
+        | L [A "symbols"; A id; sd; rt] ->
+            (* Spec/DocWf.v, Spec/DocSingleWf.v: every symbol the ordinary script defines with "x = value", with
+               multiplicity, computed from the parsed document alone *)
+            let r = d_runtime rt in
+            print_string id; print_char '\t';
+            (match parse (d_document sd) with
+             | Err _ -> print_string "null"
+             | Ok d ->
+                 let l = if d.doc_settings.single_segment_mode then doc_symbols_single d r else doc_symbols d r in
+                 print_string "[";
+                 print_string (Stdlib.String.concat "," (Stdlib.List.map (fun x -> ostr (jstr x)) l));
+                 print_string "]");
+            print_char '\n'
         | L [A "header"; A id; sd; rt; partial] ->
             (* Spec/C13Doc.v: the names the header must declare, computed from the parsed document alone *)
             let r = d_runtime rt in
